@@ -63,8 +63,9 @@ func tagMsg(kind int, s, r uint32, g *gen) []byte {
 func (g *gen) tagsScenario(w *world) {
 	w.parties = map[string]*party{}
 	w.dead = false
-	a := w.newParty(partyCfg{policies: 4, keyIdx: 0, errh: g.r.Intn(2) == 0})
-	b := w.newParty(partyCfg{policies: 4, keyIdx: 1, errh: g.r.Intn(2) == 0})
+	// own tags are preset (InitializeInstanceTag) so that the receiver tag comparison is exercised from the first message on
+	a := w.newParty(partyCfg{policies: 4, keyIdx: 0, errh: g.r.Intn(2) == 0, tag: 0x100 + g.r.Uint32()%0xfffffe00})
+	b := w.newParty(partyCfg{policies: 4, keyIdx: 1, errh: g.r.Intn(2) == 0, tag: 0x100 + g.r.Uint32()%0xfffffe00})
 	l := &link{w: w, a: a, b: b}
 	bound := g.r.Intn(3) != 0
 	if bound {
@@ -79,10 +80,6 @@ func (g *gen) tagsScenario(w *world) {
 				l.deliver(false)
 			}
 		}
-	} else {
-		// b needs an own tag to compare against: generate it
-		ts, _ := w.send(b, []byte("x"))
-		_ = ts
 	}
 	sb := otr3.VerifSnapshot(b.c)
 	sa := otr3.VerifSnapshot(a.c)
